@@ -18,17 +18,20 @@ def sh(cmd, cwd=None, timeout=1800):
     return p.returncode, p.stdout
 
 
-def collect(pid, name):
-    wt = "/tmp/seed/%s" % pid
+def collect(pid, name, src="/tmp/seed"):
+    wt = "%s/%s" % (src, pid)
     d = os.path.join(ROOT, "seeded", name)
     os.makedirs(d, exist_ok=True)
-    rc, diff = sh("git diff -- . ':!*seeded*'", cwd=wt)
+    rc, diff = sh("git diff -- . ':!*seeded*' ':!.mine.patch'", cwd=wt)
     if not diff.strip():
         print("no library change in", wt)
         return 1
     open(os.path.join(d, "patch.diff"), "w").write(diff)
     rc, untracked = sh("git ls-files --others --exclude-standard", cwd=wt)
     demos = [f for f in untracked.split() if f.endswith("_test.go")]
+    extra = [f for f in untracked.split() if f.endswith(".go") and not f.endswith("_test.go")]
+    if extra:
+        print("NOTE: the change adds new non-test files (not in git diff):", extra)
     for f in demos:
         dst = os.path.join(d, "demo", f)
         os.makedirs(os.path.dirname(dst), exist_ok=True)
@@ -101,6 +104,9 @@ if __name__ == "__main__":
         name = a[1]
         if "--name" in a:
             name = a[a.index("--name") + 1]
-        sys.exit(collect(a[1], name))
+        src = "/tmp/seed"
+        if "--src" in a:
+            src = a[a.index("--src") + 1]
+        sys.exit(collect(a[1], name, src))
     if a[0] == "run":
         sys.exit(run(a[1], a[2:]))
